@@ -101,7 +101,8 @@ type AbsDHCP struct {
 	CHAddr                net.HardwareAddr
 	CHPad                 []byte // chaddr[6:16]
 	SName, File           []byte
-	Opts                  []DHCPOpt // in wire order, without pad / end
+	Opts                  []DHCPOpt        // in wire order, without pad / end
+	Concat                map[uint8][]byte // RFC 3396: the value of a code is the concatenation of all its instances
 	End                   bool
 	EndOff                int // offset of the End option inside the DHCP message
 	Trailer               []byte
@@ -424,7 +425,7 @@ func refUDP(f *AbsFrame, p []byte) error {
 	has := func(port uint16) bool { return u.Sport == port || u.Dport == port }
 	var err error
 	switch {
-	case f.IP.Version == 4 && (u.Dport == 67 || u.Dport == 68):
+	case f.IP.Version == 4 && (u.Dport == 67 || u.Dport == 68 || u.Sport == 67):
 		f.Kind = "dhcp4"
 		f.DHCP, err = RefDHCP4(body)
 	case has(5353):
@@ -484,6 +485,10 @@ func RefDHCP4(p []byte) (*AbsDHCP, error) {
 		}
 		n := int(o[1])
 		d.Opts = append(d.Opts, DHCPOpt{Code: c, Data: o[2 : 2+n]})
+		if d.Concat == nil {
+			d.Concat = map[uint8][]byte{}
+		}
+		d.Concat[c] = append(append([]byte{}, d.Concat[c]...), o[2:2+n]...)
 		if seen[c] {
 			d.Dups = append(d.Dups, c)
 		}
